@@ -182,7 +182,9 @@ class Check:
             lines.append(f"  obligation {o['id']} ({o['kind']}, {o['backend']}) on {', '.join(o['functions'])}: "
                          f"{o['key']}")
         # a known finding whose obligation is not refuted any more is simply not printed
-        base = _load_baseline().get(self.prop)
+        bl = _load_baseline()
+        base = bl.get(self.prop + "@thorough") if self.tier == "thorough" and (self.prop + "@thorough") in bl \
+            else (bl.get(self.prop) if self.tier == "quick" else None)
         ids = sorted(o["id"] for o in self.obls)
         missing = []
         if base is not None:
